@@ -24,7 +24,8 @@ def run(tier, seed):
     viol, n = E.check_programs(progs)
     v2, n2 = E.implicit_size_checks()
     v3, n3 = E.softabs_checks()
-    for owner, sig, what, rp in viol + v2 + v3:
+    v4, n4 = E.large_scaled_checks()
+    for owner, sig, what, rp in viol + v2 + v3 + v4:
         out.violate(sig, what, rp)
     mid = progs[len(progs) // 2]
     out.coverage = {
@@ -32,7 +33,7 @@ def run(tier, seed):
         "traces_validated_against_impl": n,
         "programs_executed_on_real_classes": n, "leaf_constructors": len(E.PARAMS),
         "classes": sorted({l["cls"] for l in E.PARAMS}), "max_depth": depth,
-        "implicit_size_checks": n2, "softabs_identity_checks": n3,
+        "implicit_size_checks": n2, "softabs_identity_checks": n3, "large_scaled_objects_checked_numerically": n4,
         "observables": ["array", "matvec", "matmat", "rmatvec", "rmatmat", "transpose", "diagonal", "log_abs_det",
                         "inv.array", "inv.matvec", "inv.inv", "eigval", "eigvec", "sqrt"],
         "samples": [{"program": E.prog_str(mid), "exact_value": mid["val"], "promised": mid["facts"]}],
